@@ -118,7 +118,9 @@ def _its_to_torch(
     x = torch.tensor(node_attrs)
     edge_attrs = []
     edge_indices = []
+    node_idx = {n: i for i, n in enumerate(its.nodes)}
     for u, v, d in its.edges(data=True):
+        u, v = node_idx[u], node_idx[v]
         edge_indices.extend([[u, v], [v, u]])
         edge_attr = edge_feature_transform(d)
         edge_attrs.extend([edge_attr, edge_attr])
